@@ -80,6 +80,19 @@ class Frontend:
                 return True
         return False
 
+    def imports(self, module):
+        """names bound by `from X import a [as b]` at module level -> 'X.a'"""
+        out = {}
+        for ch in self.tree(module).body:
+            if isinstance(ch, ast.ImportFrom) and ch.module:
+                for a in ch.names:
+                    out[a.asname or a.name] = "%s.%s" % (ch.module.lstrip("."), a.name)
+            elif isinstance(ch, ast.Import):
+                for a in ch.names:
+                    if a.asname:
+                        out[a.asname] = "module:" + a.name
+        return out
+
     def module_constants(self, module):
         """module-level NAME = <number> constants"""
         out = {}
